@@ -331,6 +331,8 @@ def tokens_equal(a, b, tol=None, scale=None):
     """compare two observation tokens; comma-separated lists compared element-wise."""
     if a == b:
         return True
+    if a and b and a[0] == b[0] and a[0].isalpha() and a[0].isupper() and not a.startswith("ERR"):
+        return tokens_equal(a[1:], b[1:], tol, scale)     # tagged payload, e.g. P<values>
     if "," in a or "," in b:
         la, lb = a.split(","), b.split(",")
         return len(la) == len(lb) and all(tokens_equal(x, y, tol, scale) for x, y in zip(la, lb))
